@@ -619,11 +619,72 @@ def tensor_case(rng, ctx):
                    cod_wires, False, family="tensor", **witness)
 
 
+def multiwire_snakes(rng, ctx):
+    """
+    Evaluation is invariant under normalisation, also when an atomic type is
+    sent to SEVERAL wires: a box transposed one way and back the other way is
+    a pair of snakes around it; its cup-free normal form is evaluated by the
+    reference, the diagram with the nested cups and caps by the functor.  The
+    multi-wire images are palindromes (the object map ignores winding numbers,
+    so the adjoint of a non-palindromic image is not available).
+    """
+    tensor, rigid = _K["tensor"], _K["rigid"]
+    palindromes = [(2, 2), (3, 3), (2, 3, 2), (2, 2, 2), 2, 3]
+    rng.shuffle(palindromes)
+    if not any(isinstance(p, tuple) for p in palindromes[:2]):
+        palindromes[0] = (2, 2)
+    ob_dims = dict(zip(kits.ATOMS, palindromes))
+    interp = ke.Interp(rng, ob_dims=ob_dims)
+    atoms = [rigid.Ty(name) for name in kits.ATOMS[:3]]
+
+    def ty(n):
+        out = rigid.Ty()
+        for _ in range(n):
+            out = out @ rng.choice(atoms)
+        return out
+    dom, cod = ty(rng.randint(0, 2)), ty(rng.randint(0, 2))
+    if not len(dom @ cod):
+        dom = ty(1)
+    g = rigid.Box(rng.choice("fgh"), dom, cod)
+    left = rng.random() < .5
+    d = g.transpose(left=left).transpose(left=not left)
+    if rng.random() < .5:
+        tail = rigid.Box("t", cod, ty(rng.randint(0, 1)))
+        d = d >> tail
+    if ke.max_width(d, interp) > WIDTH_CAP:
+        ctx.count("multiwire_snakes_skipped_too_wide")
+        return
+    witness = describe(d, interp, family="multiwire-snakes")
+    try:
+        nf = d.normal_form()
+    except Exception as err:
+        ctx.count("multiwire_snakes_normal_form_raised:" + type(err).__name__)
+        return
+    if any(isinstance(b, (rigid.Cup, rigid.Cap)) for b in nf.boxes):
+        ctx.count("multiwire_snakes_not_removed")
+        return
+    ob, ar = ke.functor_args(interp, d, style=rng.choice(["callable", "dict"]))
+    try:
+        value = tensor.Functor(ob, ar)(d)
+    except Exception as err:
+        ctx.fail("invariance-under-normal-form", exception=type(err).__name__,
+                 message=str(err)[:300], **witness)
+        return
+    judge(ctx, "invariance-under-normal-form", value, ke.evaluate(nf, interp),
+          interp.ty_wires(d.dom), interp.ty_wires(d.cod), False,
+          normal_form=safe_repr(nf, 300), **witness)
+    ctx.count("multiwire_snakes")
+    ctx.mark("snakes" + repr(d) + repr(sorted(ob_dims.items())))
+
+
 def run_case(rng, ctx):
     family = ctx.index % 8
     if family in (0, 1, 2, 3):
         rigid_case(rng, ctx, multi=False)
     elif family == 4:
-        rigid_case(rng, ctx, multi=True)
+        if ctx.index % 16 == 4:
+            multiwire_snakes(rng, ctx)
+        else:
+            rigid_case(rng, ctx, multi=True)
     else:
         tensor_case(rng, ctx)
